@@ -93,3 +93,39 @@ Theorem naive_goroutine_rule_refuted :
   lock_check cx_P = true /\ ~ wf_trace_sem cx_P true [ESpawn cx_g] true.
 Proof. destruct wf_trace_sem_counterexample as (H1 & _ & _ & H4). split; assumption. Qed.
 Print Assumptions naive_goroutine_rule_refuted.
+
+(* ---- fork-join fan-outs: a separate model (ForkJoin.v); imported here so that its names do not shadow Conc's above ---- *)
+From Servitor Require Import ForkJoin.
+From Servitor.Facts Require Import ForkJoinFacts.
+
+(* FAN-OUTS (pub, splicer, client): the static conflict relation covers every pair of accesses to the same cell of which one is a write *)
+Theorem conflict_covers :
+  forall a b : acc, same_cell_conflict a b = true -> conflict a b = true.
+Proof. exact conflict_covers_fact. Qed.
+Print Assumptions conflict_covers.
+
+(* a checked fan-out has no two goroutines with conflicting accesses *)
+Theorem fj_check_pairs :
+  forall ts : list accs,
+  fj_check ts = true ->
+  forall (i j : nat) (t u : accs),
+  i <> j -> nth_error ts i = Some t -> nth_error ts j = Some u -> tasks_conflict t u = false.
+Proof. exact fj_check_pairs_fact. Qed.
+Print Assumptions fj_check_pairs.
+
+(* hence no data race: no two goroutines access the same cell with a write among the two *)
+Theorem fj_no_race :
+  forall progs : list (list op), fj_check (map (map acc_of) progs) = true -> ~ has_race progs.
+Proof. exact fj_no_race_fact. Qed.
+Print Assumptions fj_no_race.
+
+(* and EVERY interleaving that runs all goroutines to completion ends in the same memory, each goroutine having read the same values (the fan-out behaves as its sequential reading) *)
+Theorem fj_deterministic :
+  forall (progs : list (list op)) (s1 s2 : list nat) (m : mem),
+  fj_check (map (map acc_of) progs) = true ->
+  finished (snd (run s1 m (map start progs))) ->
+  finished (snd (run s2 m (map start progs))) ->
+  (forall l : loc, fst (run s1 m (map start progs)) l = fst (run s2 m (map start progs)) l) /\
+  map seen (snd (run s1 m (map start progs))) = map seen (snd (run s2 m (map start progs))).
+Proof. exact fj_deterministic_fact. Qed.
+Print Assumptions fj_deterministic.
